@@ -61,7 +61,7 @@ fn pick_name(rng: &mut Rng) -> String {
 /// a route producing a symbol named `name`; `strvar` holds a string with that name
 fn route(rng: &mut Rng, name: &str, strvar: &str) -> (String, &'static str) {
     let idl = ident_like(name);
-    let k = rng.below(if idl { 7 } else { 3 });
+    let k = rng.below(if idl { 8 } else { 3 });
     match k {
         0 => (format!("(string->symbol {})", strvar), "string->symbol"),
         1 => (format!("(string->symbol (string-copy {}))", strvar), "string->symbol-copy"),
@@ -75,13 +75,18 @@ fn route(rng: &mut Rng, name: &str, strvar: &str) -> (String, &'static str) {
         3 => (format!("'{}", name), "literal"),
         4 => (format!("(car (cdr '(zz {} yy)))", name), "quoted-datum"),
         5 => (format!("(eval '(quote {}))", name), "eval"),
+        7 => (format!("(mk-quoted {})", name), "macro-output"),
         _ => (format!("(car (eval (list 'quote (list (string->symbol {})))))", strvar), "eval-constructed"),
     }
 }
 
 pub fn session(rng: &mut Rng) -> (Vec<String>, Vec<String>) {
     let mut tags = vec![];
-    let mut f = vec!["(define (junk n) (if (= n 0) '() (cons (make-string 3 #\\j) (junk (- n 1)))))".to_string()];
+    let mut f = vec![
+        "(define (junk n) (if (= n 0) '() (cons (make-string 3 #\\j) (junk (- n 1)))))".to_string(),
+        // a macro whose output is a quoted symbol taken from its use
+        "(define-syntax mk-quoted (syntax-rules () ((_ s) (car (list 's)))))".to_string(),
+    ];
     let nb = 1 + rng.below(3);
     for b in 0..nb {
         let u = b + 1;
